@@ -83,7 +83,9 @@ impl<'a, 'tcx> Ex<'a, 'tcx> {
                 ProjectionElem::Field(f, _) => {
                     let bty = base.ty(&self.body.local_decls, self.tcx);
                     let mut name = String::new();
+                    let mut owner = String::new();
                     if let ty::Adt(adt, _) = bty.ty.kind() {
+                        owner = dps(self.tcx, adt.did());
                         let vi = bty.variant_index.unwrap_or(rustc_abi::FIRST_VARIANT);
                         if adt.is_enum() || adt.is_struct() || adt.is_union() {
                             if let Some(v) = adt.variants().get(vi) {
@@ -93,7 +95,7 @@ impl<'a, 'tcx> Ex<'a, 'tcx> {
                             }
                         }
                     }
-                    let _ = write!(o, "[\"f\",{},{}]", f.as_usize(), q(&name));
+                    let _ = write!(o, "[\"f\",{},{},{}]", f.as_usize(), q(&name), q(&owner));
                 }
                 ProjectionElem::Downcast(name, v) => {
                     let n = name.map(|s| s.to_string()).unwrap_or_default();
